@@ -1,5 +1,6 @@
 // seams.cpp — allocator seam (link-time --wrap), event clock, coverage / preemption hook, emergency exits.
 #include <cerrno>
+#include <dlfcn.h>
 #include "core.hpp"
 #include <unistd.h>
 #include <signal.h>
@@ -173,6 +174,15 @@ extern "C" void __sanitizer_cov_trace_pc_guard(uint32_t *guard) {
   if (!g_cov) { g_cov = new std::vector<uint8_t>(g_nguards + 1, 0); }
   if (id < g_cov->size() && !(*g_cov)[id]) { (*g_cov)[id] = 1; g_covcount++; }
   if (g_sched_enabled) sched_edge_hook();
+}
+// pc-table (one {pc, flags} pair per guard, same order): lets a coverage dump name the library functions and edges no run reached
+namespace { const uintptr_t *g_pcs = nullptr; size_t g_npcs = 0; }
+extern "C" void __sanitizer_cov_pcs_init(const uintptr_t *beg, const uintptr_t *end) { if (!g_pcs) { g_pcs = beg; g_npcs = (size_t)(end - beg) / 2; } }
+void cov_dump(const char *path) {   // "<pc hex> <entry flag> <hit>" per guard; merged and symbolised by bin/covreport.py (reach measurement, not used by any verdict)
+  FILE *f = fopen(path, "w"); if (!f) return;
+  Dl_info di; uintptr_t base = 0; if (dladdr((void *)&cov_dump, &di)) base = (uintptr_t)di.dli_fbase;   // position-independent executable: module-relative addresses
+  for (size_t i = 0; i < g_npcs && i < g_nguards; i++) fprintf(f, "%lx %d %d\n", (unsigned long)(g_pcs[2 * i] - base), (int)(g_pcs[2 * i + 1] & 1), (g_cov && i + 1 < g_cov->size()) ? (int)(*g_cov)[i + 1] : 0);
+  fclose(f);
 }
 size_t cov_total() { return g_nguards; }
 size_t cov_count() { return g_covcount; }
